@@ -34,6 +34,7 @@ Record fcase := {
   f_entries : list entry;            (* --credentials *)
   f_up : upstream;                   (* upstream selection *)
   f_req : req;                       (* the client's request (it passed access control) *)
+  f_scheme : str;                    (* URL scheme of a non-CONNECT request *)
   f_inner_auth : list str;           (* Authorization lines the client sent INSIDE the tunnel (CONNECT only) *)
   f_msgs : list gmsg                 (* message heads received by origin / upstream proxy, in order *)
 }.
@@ -45,7 +46,8 @@ Definition gkind_eqb (a c : gkind) : bool :=
   match a, c with GPlain, GPlain | GConnect, GConnect | GTunnelInner, GTunnelInner => true | _, _ => false end.
 Definition hop_eqb (a c : hop) : bool :=
   match a, c with ToOrigin, ToOrigin | ToProxy, ToProxy => true | _, _ => false end.
-Definition kind_of (k : msg_kind) : gkind := match k with MPlain => GPlain | MConnect => GConnect end.
+Definition kind_of (k : msg_kind) : gkind :=
+  match k with MPlain => GPlain | MConnect => GConnect | MTunnelled => GTunnelInner end.
 
 (* correspondence: the model's messages are the non-tunnelled messages received, with the same
    Authorization / Proxy-Authorization lines *)
@@ -65,8 +67,9 @@ Definition fcase_model_ok (c : fcase) : bool :=
   | None => false
   | Some m =>
       let om := match f_entries c with [] => None | _ => Some m end in
-      msgs_agree (forward om (f_up c) (f_req c))
-                 (filter (fun g => negb (gkind_eqb (g_kind g) GTunnelInner)) (f_msgs c))
+      (* what arrives through a tunnel the CLIENT opened is the client's own: not a message of the model *)
+      msgs_agree (forward om (f_up c) (f_scheme c) (f_req c))
+                 (filter (fun g => negb (is_connect (f_req c) && gkind_eqb (g_kind g) GTunnelInner)) (f_msgs c))
   end.
 
 (* ---- the property on the observation ---- *)
@@ -129,9 +132,16 @@ Definition fcase_prop_ok (c : fcase) : bool :=
     | GPlain =>
         match client_auth_lines q with
         | [] => list_str_eqb (auth_of (g_hdr g))
-                  (match spec_match_url es (b "http") (r_host q) with Some k => [basic_value k] | None => [] end)
+                  (match spec_match_url es (f_scheme c) (r_host q) with Some k => [basic_value k] | None => [] end)
         | ls => list_str_eqb (auth_of (g_hdr g)) ls          (* kept, in order, nothing added *)
         end
-    | GTunnelInner => list_str_eqb (auth_of (g_hdr g)) (f_inner_auth c)
+    | GTunnelInner =>
+        if is_connect q then list_str_eqb (auth_of (g_hdr g)) (f_inner_auth c)   (* the client's own bytes *)
+        else                                                                       (* the proxy's request inside its own tunnel *)
+          match client_auth_lines q with
+          | [] => list_str_eqb (auth_of (g_hdr g))
+                    (match spec_match_url es (f_scheme c) (r_host q) with Some k => [basic_value k] | None => [] end)
+          | ls => list_str_eqb (auth_of (g_hdr g)) ls
+          end
     | GConnect => true      (* site credentials on the CONNECT head sent to an upstream proxy: observed, not claimed *)
     end) (f_msgs c).
